@@ -26,23 +26,25 @@ pub struct Case {
     pub entries: Vec<Entry>,
 }
 
-const DIRN: [&str; 6] = ["game", "sqpack", "ffxiv", "ex1", "boot", "d"];
+const DIRN: [&str; 8] = ["game", "sqpack", "ffxiv", "ex1", "boot", "d", "v1..2", "d.e"];
 /// the second half: names that are a directory name of the pool followed by a byte that sorts below '/', so that the
 /// order of whole path strings and the order of paths compared component by component disagree
-const FILEN: [&str; 24] = ["a.bin", "b.dat", "ffxivgame.ver", "000000.win32.dat0", "000000.win32.index", "c.txt", "UPPER.Case", "x", "d.bak", "boot-old.bin", "game .txt", "ex1.ver", "sqpack+1.dat", "ffxiv!", "d-", "boot.d.e",
+const FILEN: [&str; 28] = ["a.bin", "b.dat", "ffxivgame.ver", "000000.win32.dat0", "000000.win32.index", "c.txt", "UPPER.Case", "x", "d.bak", "boot-old.bin", "game .txt", "ex1.ver", "sqpack+1.dat", "ffxiv!", "d-", "boot.d.e",
     // names sharing their stem with another name of the pool (a.bin / a.tmp, c.txt / c.tmp, ...), and names with a backslash
     // (an ordinary character of a file name here)
-    "a.tmp", "c.tmp", "b.tmp", "UPPER.tmp", "x.tmp", "win\\style.bin", "key\\value.cfg", "a.bak"];
+    "a.tmp", "c.tmp", "b.tmp", "UPPER.tmp", "x.tmp", "win\\style.bin", "key\\value.cfg", "a.bak",
+    // consecutive dots inside a name (not a path component of their own)
+    "notes..txt", "save..bak", "a..b", "...rc"];
 
 fn path_of(e: &Entry) -> String {
     let mut s = String::new();
     for d in &e.dirs {
-        s.push_str(DIRN[*d as usize % 6]);
+        s.push_str(DIRN[*d as usize % 8]);
         s.push('/');
     }
     // "x" has no dot: make it unambiguous as a file name
-    s.push_str(FILEN[e.name as usize % 24]);
-    if FILEN[e.name as usize % 24] == "x" {
+    s.push_str(FILEN[e.name as usize % 28]);
+    if FILEN[e.name as usize % 28] == "x" {
         s.push_str(".f");
     }
     s
@@ -59,7 +61,7 @@ fn size(max: u32) -> BoxedStrategy<u32> {
 
 fn strategy(ctx: &Ctx) -> BoxedStrategy<Case> {
     let max = ctx.tier.pick(8 * 1024u32, 400 * 1024u32);
-    vec((vec(0u8..6, 0..=4), prop_oneof![2 => 0u8..8, 1 => 8u8..16, 1 => 16u8..24], prop_oneof![8 => 0u8..4, 1 => 4u8..8], size(max), size(max), any::<u64>()).prop_map(|(dirs, name, kind, size_a, size_b, seed)| Entry { dirs, name, kind, size_a, size_b, seed }), 1..=10)
+    vec((vec(prop_oneof![6 => 0u8..6, 1 => 6u8..8], 0..=4), prop_oneof![3 => 0u8..8, 2 => 8u8..16, 2 => 16u8..24, 1 => 24u8..28], prop_oneof![8 => 0u8..4, 1 => 4u8..8], size(max), size(max), any::<u64>()).prop_map(|(dirs, name, kind, size_a, size_b, seed)| Entry { dirs, name, kind, size_a, size_b, seed }), 1..=10)
         .prop_map(|entries| Case { entries })
         .boxed()
 }
